@@ -332,6 +332,21 @@ func (tb *TB) buildSystem(facts []Atom, at *ssa.BasicBlock, before ssa.Instructi
 				switch name {
 				case "builtin len", "builtin cap":
 					addLenAxiom(sym)
+				case "builtin append":
+					// len(append(a, b...)) == len(a) + len(b)
+					if len(c.Call.Args) == 2 {
+						res := "len(" + sym + ")"
+						as, ac, _ := tb.lenSym(c.Call.Args[0])
+						bs, bc, _ := tb.lenSym(c.Call.Args[1])
+						e := symLin(res).addScaled(symLin(as), -1).addScaled(symLin(bs), -1)
+						e.k -= ac + bc
+						s.eqs = append(s.eqs, e)
+						s.le(as, res, -ac) // len(a) <= len(result)
+						if bs == "0" {
+							s.le(res, as, ac+bc)
+							s.le(as, res, -(ac + bc))
+						}
+					}
 				case "builtin copy":
 					s.le("0", sym, 0)
 					ds, dc, _ := tb.lenSym(c.Call.Args[0])
